@@ -53,7 +53,8 @@ def handle_violations(prop, engine, found, tier):
         unknown.append((variant, rec, v))
     if unknown:
         # report the first (lowest run index) with a minimised replay file; list a few more unminimised
-        unknown.sort(key=lambda t: (t[1].get("run", 0), t[0]))
+        # (a native record first when there is one: its replay is minimised in seconds, a Miri one in minutes)
+        unknown.sort(key=lambda t: (t[1].get("engine") in ("miri", "miri-seq"), t[1].get("run", 0), t[0]))
         variant, rec, v = unknown[0]
         path = C.report_violation(prop, rec.get("engine", engine), variant, rec, v, tier)
         print("  kind=%s variant=%s run=%s detail=%s" % (v["kind"], variant, rec.get("run"), v["detail"][:300]), flush=True)
@@ -290,11 +291,16 @@ def miri_run(args, miri_seed, rate, timeout=300):
     if args and args[0] == "--bin":
         binname, args = args[1], args[2:]
     cmd = ["cargo", "+nightly", "miri", "run", "--offline", "-q", "--target-dir", os.path.join(C.TARGET, "miri"), "--bin", binname, "--"] + args
-    try:
-        r = subprocess.run(cmd, cwd=MIRI_DIR, env=env, stdout=subprocess.PIPE, stderr=subprocess.PIPE, text=True, timeout=timeout)
-    except subprocess.TimeoutExpired:
-        return ("timeout", "", "")
-    return (r.returncode, r.stdout, r.stderr)
+    # An execution takes seconds; the limit is minutes. A first timeout may still be the machine
+    # (other jobs on all cores), so the same seeded execution is repeated once with three times
+    # the limit before it is reported as "did not finish".
+    for t in (timeout, timeout * 3):
+        try:
+            r = subprocess.run(cmd, cwd=MIRI_DIR, env=env, stdout=subprocess.PIPE, stderr=subprocess.PIPE, text=True, timeout=t)
+            return (r.returncode, r.stdout, r.stderr)
+        except subprocess.TimeoutExpired:
+            continue
+    return ("timeout", "", "")
 
 
 def miri_classify(rc, out, err):
@@ -332,11 +338,13 @@ def miri_seq_run(args, miri_seed, timeout=1500):
     env["MIRIFLAGS"] = "-Zmiri-seed=%d -Zmiri-disable-isolation" % miri_seed
     cmd = ["cargo", "+nightly", "miri", "run", "--offline", "-q", "-p", "seq", "--no-default-features", "--features", "std",
            "--target-dir", os.path.join(C.TARGET, "miri-seq"), "--"] + args
-    try:
-        r = subprocess.run(cmd, cwd=C.SIM, env=env, stdout=subprocess.PIPE, stderr=subprocess.PIPE, text=True, timeout=timeout)
-    except subprocess.TimeoutExpired:
-        return ("timeout", "", "")
-    return (r.returncode, r.stdout, r.stderr)
+    for t in (timeout, timeout * 3):
+        try:
+            r = subprocess.run(cmd, cwd=C.SIM, env=env, stdout=subprocess.PIPE, stderr=subprocess.PIPE, text=True, timeout=t)
+            return (r.returncode, r.stdout, r.stderr)
+        except subprocess.TimeoutExpired:
+            continue
+    return ("timeout", "", "")
 
 
 def miri_seq_tier(prop, tier, seed, scale, profile="std"):
@@ -702,7 +710,7 @@ def check_c17(prop, tier, seed, scale=1.0):
 
     def work(job):
         i, mseed = job
-        rc, out, err = miri_run(["--bin", "byz", str(seed), str(tag), str(i * per_proc), str((i + 1) * per_proc)], mseed, "0.1", timeout=900)
+        rc, out, err = miri_run(["--bin", "byz", str(seed), str(tag), str(i * per_proc), str((i + 1) * per_proc)], mseed, "0.1", timeout=300)
         n = len([l for l in out.splitlines() if l.startswith("CASE")])
         return job, rc, out, err, n
 
@@ -741,7 +749,7 @@ def check_c17(prop, tier, seed, scale=1.0):
                          "iterator size_hint 0/huge/lower>upper + panic mid-way; owner as_ref panic / different slice per call",
         },
         "consumers": "BytesMut::put, Vec::put, default put on &mut [u8] / &mut [MaybeUninit<u8>] / Limit / Chain, put(Take<L>), put(Chain<L,..>), copy_to_bytes, copy_to_slice, try_copy_to_slice, "
-                     "all get_*/try_get_*, Take (chunks_vectored, copy_to_bytes, advance), Chain, Reader (read, fill_buf, consume, read_to_end), IntoIter, from_owner, extend, from_iter, &mut/Box forwarders",
+                     "all get_*/try_get_*, Take (chunks_vectored, copy_to_bytes, advance), Chain, Reader (read, fill_buf, consume, read_to_end), IntoIter, from_owner, io::Cursor<T> over a T whose as_ref() changes per call, extend, from_iter, &mut/Box forwarders",
         "real_vs_stub": REAL_VS_STUB_BUF,
     }
     C.write_evidence(prop, tier, seed, "fault_enumeration", cov, wall, n_unknown,
